@@ -348,6 +348,17 @@ def find_check_cache(context):
     except FileNotFoundError:
         return
 
+    # If the find cache is newer than the build file (always the first output),
+    # an earlier regeneration was interrupted after it saved the cache but
+    # before it wrote the build file. The cache then already describes the
+    # current find results while the build file doesn't, so comparing them below
+    # would wrongly conclude that nothing changed.
+    if ( _path.getmtime_ns(Path(FindCacheFile.cachefile),
+                           context.env.base_dirs, strict=False) >
+         _path.getmtime_ns(regen_files.outputs[0], context.env.base_dirs,
+                           strict=False) ):
+        return
+
     # Check if any of the explicit inputs are newer than any of the explicit
     # outputs. If so, we definitely want to regenerate the build files.
     if ( max(_path.getmtime_ns(i, context.env.base_dirs, strict=False)
